@@ -48,7 +48,11 @@ struct DefaultGetEvent
 {
 	template <typename U, typename ...Args>
 	static E getEvent(U && e, Args && ...) {
-		return e;
+		// The event must be copied (or converted) from `e`, never moved: the caller passes the same argument
+		// on to the listeners after it obtained the event. `return e;` would move from `e` when U && is an
+		// rvalue reference (implicit move on return: C++20, and some compilers in every language mode).
+		const typename std::remove_reference<U>::type & reference = e;
+		return reference;
 	}
 };
 template <typename T, typename Key, bool> struct SelectGetEvent { using Type = T; };
